@@ -602,6 +602,21 @@ def run(rep, program: Program, tier: str) -> None:
     rep.isolate(rule_r1, rep, program)
     rep.isolate(rule_r2_r3, rep, program)
     rep.isolate(rule_r5, rep, program)
+    # a cache handed on to a derived matrix (capacitance, factor, eigendecomposition, LU) that does not satisfy its defining
+    # identity makes a property of the derived matrix depend on which property of the source was evaluated first: the
+    # result of `m.T.inv` then depends on the history of `m` (shared with C10-R5)
+    from . import c10
+
+    n0 = len(rep.rules)
+    _r1, _r4, r5c = c10.rule_algebra(rep, program, relevant=lambda cname, member: True)
+    rep.rules = rep.rules[:n0]
+    r6 = rep.rule("R6", "caches forwarded to derived matrices satisfy their defining identity on the new arguments: results do not depend on which property was evaluated first", floor=20)
+    r6.instances = r6.exercised = r5c.instances
+    r6.samples = r5c.samples
+    for fd in r5c.findings:
+        fd.rule, fd.prop = "R6", PROP
+        r6.findings.append(fd)
+    rep.extra.pop("members_outside_algebra", None)
     # no class customises copying/pickling
     r = rep.rule("R4", "no matrix class overrides __copy__/__deepcopy__/__reduce__/__getstate__ (default protocols preserve exactly the attributes equality compares)", floor=30)
     for k in program.subclasses("Matrix"):
